@@ -1,5 +1,6 @@
 import Fpdec.Kernels.DecUnops
 import Fpdec.Kernels.Log
+import Fpdec.Kernels.NumTraits
 import Fpdec.Kernels.Magn
 import Fpdec.Kernels.Cmp
 import Fpdec.Kernels.Unops
@@ -101,5 +102,26 @@ theorem kernel_decimal_is_negative (prof : Profile) (d : Dec) : Gen.K.decimal_is
   Kernels.decimal_is_negative_eq prof d
 theorem kernel_decimal_is_positive (prof : Profile) (d : Dec) : Gen.K.decimal_is_positive prof d = .ok (isPositive d) :=
   Kernels.decimal_is_positive_eq prof d
+
+/-- the `num-traits` forwarders (`Zero`, `One`, `Num::from_str_radix`, `Signed`; feature `num-traits`), as translated on this run: each is
+    the inherent operation it forwards to -/
+theorem kernel_nt_zero (prof : Profile) : Gen.K.nt_zero prof = .ok Dec.ZERO := Kernels.nt_zero_eq prof
+theorem kernel_nt_one (prof : Profile) : Gen.K.nt_one prof = .ok Dec.ONE := Kernels.nt_one_eq prof
+theorem kernel_nt_is_zero (prof : Profile) (d : Dec) : Gen.K.nt_is_zero prof d = .ok (eqZero d) := Kernels.nt_is_zero_eq prof d
+theorem kernel_nt_is_one (prof : Profile) (d : Dec) : Gen.K.nt_is_one prof d = eqOne d := Kernels.nt_is_one_eq prof d
+theorem kernel_nt_abs (prof : Profile) (d : Dec) : Gen.K.nt_abs prof d = abs prof d := Kernels.nt_abs_eq prof d
+theorem kernel_nt_signum (prof : Profile) (d : Dec) : Gen.K.nt_signum prof d = .ok (fromInt (Int.sign d.coeff)) :=
+  Kernels.nt_signum_eq prof d
+theorem kernel_nt_is_positive (prof : Profile) (d : Dec) : Gen.K.nt_is_positive prof d = .ok (isPositive d) :=
+  Kernels.nt_is_positive_eq prof d
+theorem kernel_nt_is_negative (prof : Profile) (d : Dec) : Gen.K.nt_is_negative prof d = .ok (isNegative d) :=
+  Kernels.nt_is_negative_eq prof d
+theorem kernel_nt_from_str_radix (prof : Profile) (s : List Nat) (radix : Nat) :
+    Gen.K.nt_from_str_radix prof s radix = (if radix ≠ 10 then .ok (.error .invalid) else fromStr prof s) :=
+  Kernels.nt_from_str_radix_eq prof s radix
+theorem kernel_nt_abs_sub (prof : Profile) (x y : Dec) (hp : x.nfrac < 256) (hq : y.nfrac < 256) :
+    Gen.K.nt_abs_sub prof x y =
+      (if partialCmp x y = some .lt ∨ partialCmp x y = some .eq then .ok Dec.ZERO else addSub true x y) :=
+  Kernels.nt_abs_sub_eq prof x y hp hq
 
 end Fpdec.Props.C15
